@@ -169,6 +169,26 @@ def Cel.check : Cel → Option CelTy
 /-- the `if` of a step that holds the text `src` spelling this expression -/
 def Cel.cond (e : Cel) (src : String := "") : Cond := .expr src e.check
 
+/-- the expression reads the request header `name` (`Request.Header("name")` occurs in it).  CEL evaluation is not
+modelled; what the probe semantics (`Model/FactoryProbe.lean`) needs to know of an expression a cel authorizer
+verifies is whether it looks at the header by which a probe request asks to be refused. -/
+def Cel.readsHeader (name : String) : Cel → Bool
+  | .call1 (.var "Request") "Header" (.str s) => s == name
+  | .call1 r _ a => r.readsHeader name || a.readsHeader name
+  | .list1 e => e.readsHeader name
+  | .map1 _ e => e.readsHeader name
+  | .sel e _ => e.readsHeader name
+  | .idx e i => e.readsHeader name || i.readsHeader name
+  | .eq a b => a.readsHeader name || b.readsHeader name
+  | .ne a b => a.readsHeader name || b.readsHeader name
+  | .and a b => a.readsHeader name || b.readsHeader name
+  | .or a b => a.readsHeader name || b.readsHeader name
+  | .not a => a.readsHeader name
+  | .ite c a b => c.readsHeader name || a.readsHeader name || b.readsHeader name
+  | .call0 r _ => r.readsHeader name
+  | .fn1 _ a => a.readsHeader name
+  | _ => false
+
 /-- how cel-go prints the type -/
 def CelTy.name : CelTy → String
   | .bool => "bool"
